@@ -418,6 +418,23 @@ for _t in ("Tie/EmuAgree.v", "Tie/EmuDisciplined.v", "Tie/EmuOrderOk.v", "Tie/Co
     if _t not in PROPS["C19"]["tie_files"]:
         PROPS["C19"]["tie_files"].append(_t)
 
+# ---- the serial port over UDP (round 8: six seeded changes went into xsensemulator/udpserialport.go, until then outside every
+# model): regenerated (Gen/UdpFns.v), proved equal to Model/UdpPort.v (Tie/UdpAgree.v), exercised on real loop-back sockets ----
+_UDP = {"type": "case_udp", "chk": "chk_udp", "sig": "sig_udp", "scope": "N_scope"}
+for _pid in ("C01", "C06", "C07", "C08", "C18", "C19"):
+    _add_kind(_pid, "udp", _UDP, "Run.EvalUdp", ["XS.Model.UdpPort"])
+    if "Tie/UdpAgree.v" not in PROPS[_pid]["tie_files"]:
+        PROPS[_pid]["tie_files"].append("Tie/UdpAgree.v")
+    PROPS[_pid]["rule"] += (" Also (kind udp): the serial port over UDP on real loop-back sockets - frames of every boundary size"
+                            " (0..2048 data bytes, around 1472-byte datagrams) in both directions in bursts, arbitrary slices with"
+                            " small read buffers and interleaved directions, ports with and without a timeout (a read that waits for"
+                            " a later write, a quiet line of 1.2 s, a deadline that passes), closed ports; an emulator transmitting"
+                            " every size to the library's stream scanner.")
+    PROPS[_pid]["level_note"] += (" The serial port over UDP (udpserialport.go) is regenerated statement by statement (go/xlate/udpfn.go;"
+                                  " the connection's operations, address resolution and listening are parameters) and proved equal to"
+                                  " Model/UdpPort.v (Tie/UdpAgree.v); the loop-back network is assumed first-in first-out and lossless"
+                                  " (observed by the udp cases).")
+
 # ---- what the later rounds of seeded changes added to the generators (appended to each property's rule, so that the
 # evidence says what a run covered) ----
 _RULE_MORE = {
